@@ -213,6 +213,9 @@ class Sym:
                 names = rv.get("fields") or [str(i) for i in range(len(rv["o"]))]
                 if path[0] in names:
                     return self.operand(rv["o"][names.index(path[0])], path[1:], depth + 1)
+            if ak == "Adt" and len(rv["o"]) == 1 and not path and (rv.get("fields") or ["0"]) == ["0"]:
+                # single-field tuple struct (Rank(1), TorusPrecision(x)): the newtype is transparent
+                return self.operand(rv["o"][0], (), depth + 1)
             return Poly.atom(("op", "agg", self.fn.uid, bi, si))
         return Poly.atom(("op", k, self.fn.uid, bi, si))
 
